@@ -40,6 +40,12 @@ def gl_rows(case):
         W = np.random.RandomState(generic_seed).normal(size=(400, K)) * 1.5
     out = P.linear_prox_grad(W.copy(), alpha)
     v, nt = [], 0
+    outF = P.linear_prox_grad(np.asfortranarray(W), alpha)
+    big = np.zeros((2 * len(W), 2 * K))
+    big[::2, ::2] = W
+    outV = P.linear_prox_grad(big[::2, ::2], alpha)
+    if not (np.array_equal(out, outF) and np.array_equal(out, outV)):
+        v.append(violation("result_depends_on_memory_layout", {"K": K, "alpha": alpha}, op="linear_prox_grad"))
     if out.shape != W.shape:
         return {"v": [violation("shape", f"{out.shape} vs {W.shape}", op="linear_prox_grad")]}
     for i in range(len(W)):
@@ -134,6 +140,8 @@ def hier_rows(case):
     keep = _in_scope(V, U, alpha)
     V, U = V[keep], U[keep]
     v, nt = _check_hier(P, V, U, alpha, M, "mlp_prox_grad", lambda a, b: P.mlp_prox_grad(a, b, alpha, M))
+    vF, _ = _check_hier(P, V, U, alpha, M, "mlp_prox_grad[fortran]", lambda a, b: P.mlp_prox_grad(np.asfortranarray(a), np.asfortranarray(b), alpha, M))
+    v.extend(vF)
     # one-row calls (d=1 shape) on a deterministic subset
     step = max(1, len(V) // 64)
     for i in range(0, len(V), step):
